@@ -4,8 +4,8 @@ namespace BV.C17.HF
 
 /-- orphan pool invariant: at most one above the nominal bound, and a non-nil cached oldest
     pointer only while the pool is within the bound -/
-def PoolOk (b : BState) : Prop :=
-  b.orphans.length ≤ MAX_ORPHANS + 1 ∧ (b.oldest.isSome = true → b.orphans.length ≤ MAX_ORPHANS)
+def PoolOk (e : Env) (b : BState) : Prop :=
+  b.orphans.length ≤ e.maxOrphans + 1 ∧ (b.oldest.isSome = true → b.orphans.length ≤ e.maxOrphans)
 
 /-- best-header invariant: the best header is the root or an accepted header, and no accepted
     header has more work -/
